@@ -375,6 +375,16 @@ def reflect():
     return _REFL["r"]
 
 
+def reflect_after_use():
+    """the same dump taken after the library was used (attach to every device type, every facade method once)"""
+    if "u" not in _REFL:
+        rc, out, _ = sh([PY, os.path.join(TOOLS, "reflect_tables.py"), "--after-use"], timeout=300, env=impl_env([os.path.join(TOOLS, "stubs")]))
+        if rc != 0:
+            raise RuntimeError("reflection (after use) failed:\n" + out[-3000:])
+        _REFL["u"] = json.loads(out.strip().split("\n")[-1])
+    return _REFL["u"]
+
+
 def validate_translator(rep, summary, parts=("tables", "opcodes", "sense", "init_cdb")):
     """compare what the translator extracted by `ast` with what the imported package really holds"""
     r = reflect()
